@@ -34,8 +34,12 @@ def to_oa_date(date):
 
 
 def to_date(oadate):
+    # an OA date carries milliseconds at most: round to the nearest one,
+    # truncating after the float arithmetic turns 00:00:01 into 00:00:00.999
+    millis_per_day = 24 * 60 * 60 * 1000
+    days, millis = divmod(round(oadate * millis_per_day), millis_per_day)
     # day 2 is 1900-01-01, see to_oa_date
-    value = oadate - 2
+    value = days - 2
     year = 1900
     while value >= year_days(year):
         value -= year_days(year)
@@ -44,15 +48,10 @@ def to_date(oadate):
     while value >= month_days(year, month):
         value -= month_days(year, month)
         month += 1
-    day = math.trunc(value) + 1
-    value = value - math.trunc(value)
-    hours = math.trunc(value * 24)
-    value = value * 24 - hours
-    minutes = math.trunc(value * 60)
-    value = value * 60 - minutes
-    seconds = math.trunc(value * 60)
-    value = value * 60 - seconds
-    microseconds = math.trunc(value * 1000 * 1000)
+    day = value + 1
+    seconds, millis = divmod(millis, 1000)
+    minutes, seconds = divmod(seconds, 60)
+    hours, minutes = divmod(minutes, 60)
     result = datetime.datetime.fromtimestamp(0)
     return result.replace(
         year=year,
@@ -61,5 +60,5 @@ def to_date(oadate):
         hour=hours,
         minute=minutes,
         second=seconds,
-        microsecond=microseconds
+        microsecond=millis * 1000
     )
